@@ -602,7 +602,11 @@ func (s *Server) serveListReposErr(q query.Q, qStr string, r *http.Request) (*Re
 		for _, b := range r.Repository.Branches {
 			var buf bytes.Buffer
 			if err := t.Execute(&buf, b); err != nil {
-				return nil, err
+				// A template that fails for one repository must not take the
+				// whole repository list down: show the branch without link,
+				// as file URL templates that fail are only logged as well.
+				log.Printf("commit URL template of %s: %v", r.Repository.Name, err)
+				buf.Reset()
 			}
 			repo.Branches = append(repo.Branches,
 				Branch{
